@@ -43,7 +43,7 @@ type gHub struct {
 	calls    []*gCall
 	byKey    map[string][]*gCall
 	counters map[string]int
-	hold     bool                                // gates closed (gated mode)
+	hold     bool                                  // gates closed (gated mode)
 	sleep    func(key string, n int) time.Duration // free mode: artificial handler duration
 	notify   chan struct{}
 	problems []string // invariant violations seen inside handlers (aliasing buffers)
